@@ -15,6 +15,7 @@ import Rpki.Proofs.DerLemmas
 import Rpki.Props.C17
 import Rpki.Props.C02
 import Rpki.Proofs.CrlCodec
+import Rpki.Proofs.CertEncLemmas
 namespace Rpki.Props.C05
 set_option autoImplicit false
 open Rpki.Der
@@ -160,5 +161,70 @@ example : (⟨10 * 2 ^ 120, 8, some 24⟩ : Roa.Addr).WF ∧ Roa.addrOk 32 ⟨10
   refine ⟨⟨by decide, by decide, by decide, ?_⟩, by decide⟩
   intro m hm; injection hm with hm; omega
 example : Roa.decodeAspa 16380 (Roa.encodeAspa 64500 (Roa.encodeProviders [1, 70000])) = some ⟨64500, Roa.encodeProviders [1, 70000], 2⟩ := by decide
+
+/-! ### certificates: `TbsCert::encode_ref` and `TbsCert::from_constructed`
+
+`Model/CertEnc.lean` is the writer (tied to the library by the `bytes cert` operations: for every certificate
+the library builds, writing the decoded fields again with the model gives the library's to-be-signed
+octets), `Model/CertDer.lean` the reader (tied by `certd`).  For every certificate whose fields are in the
+profile the reader returns exactly the fields that were written. -/
+
+/-- **Built certificates decode back to themselves**: all 24 fields come back, the algorithm identifier
+with the NULL parameter the writer always puts, the validity as the instants of the two calendar times. -/
+theorem tbs_cert_roundtrip (d : CertDer.Decoded) (h : CertEnc.WF d) (outerParam : Bool) (signature : Bytes) :
+    CertDer.decodeTbs (CertEnc.encodeTbs d) outerParam signature = some (CertEnc.readBack d outerParam signature) :=
+  CertEnc.decodeTbs_encodeTbs d h outerParam signature
+
+/-- and re-encoding what was read gives the same octets again (the writer looks at none of the fields the
+reader fills in differently) -/
+theorem tbs_cert_reencode (d : CertDer.Decoded) (outerParam : Bool) (signature : Bytes) :
+    CertEnc.encodeTbs (CertEnc.readBack d outerParam signature) = CertEnc.encodeTbs d := rfl
+
+/-- the hypothesis `WF` is what the builders' inputs have: canonical resource chains are read back by the IPv6
+and AS readers, and the names the library derives from keys are complete values for the name reader -/
+theorem wf_parts (cl6 cla : Chain.Claim) (s : Bytes)
+    (h6 : CertDer.ClaimCanon IpDer.maxAddr cl6) (ha : CertDer.ClaimCanon AsDer.maxAs cla) (hp : cla ≠ .missing) :
+    CertEnc.ClaimRead 128 cl6 ∧ CertEnc.AsRead cla ∧
+    CertEnc.NameOk (tlv tagSeq (tlv tagSet (tlv tagSeq (tlv tagOid Consts.oidCommonName ++ tlv CertDer.tagPrintable s)))) :=
+  ⟨CertEnc.claimRead128_of_canon cl6 h6, CertEnc.asRead_of_canon cla ha hp, CertEnc.nameOk_cn s⟩
+
+/-! non-vacuity: a CA certificate (repository and manifest URIs, all IPv6 space, inherited AS resources) in the
+profile; its to-be-signed octets are read back -/
+def exName (c : Nat) : Bytes :=
+  tlv tagSeq (tlv tagSet (tlv tagSeq (tlv tagOid Consts.oidCommonName ++ tlv CertDer.tagPrintable [c])))
+
+def exCert : CertDer.Decoded :=
+  { serial := List.replicate 19 0 ++ [5], innerParam := true, outerParam := true,
+    issuer := exName 65, subject := exName 66, validity := ⟨0, 0⟩,
+    notBefore := ⟨2020, 1, 1, 0, 0, 0⟩, notAfter := ⟨2051, 12, 31, 23, 59, 59⟩,
+    keyAlg := .rsa, keyUnused := 0, keyBits := [1, 2, 3], basicCa := some true, ski := List.replicate 20 7, aki := none,
+    keyUsage := .ca, eku := none, ekuContent := [], crlUri := none, caIssuer := none,
+    sia := { caRepository := some [114, 115, 121, 110, 99, 58, 47, 47, 104, 47, 109, 47], rpkiManifest := some [114, 115, 121, 110, 99, 58, 47, 47, 104, 47, 109, 47, 97, 46, 109, 102, 116] },
+    trim := false, v4 := .missing, v6 := .blocks [⟨0, 2 ^ 128 - 1⟩], asn := .inherit, tbs := [], signature := [] }
+
+theorem exCert_wf : CertEnc.WF exCert where
+  serial := ⟨by decide, (by intro x hx; simp [exCert] at hx; rcases hx with h | h <;> omega), by decide⟩
+  issuer := CertEnc.nameOk_cn [65]
+  subject := CertEnc.nameOk_cn [66]
+  nb := by decide
+  na := by decide
+  key := by decide
+  ski := by decide
+  aki := by intro k h; cases h
+  ekuSome := by intro x h; cases h
+  ekuNone := by intro _; rfl
+  crl := by intro u h; cases h
+  aia := by intro u h; cases h
+  sia := { repo := by intro u h; injection h with h; subst h; decide
+           mft := by intro u h; injection h with h; subst h; decide
+           so := by intro u h; cases h
+           ntf := by intro u h; cases h }
+  v4 := trivial
+  v6 := CertEnc.claimRead128_of_canon _ ⟨by intro b hb; simp at hb; subst hb; decide, by simp⟩
+  asn := Or.inr trivial
+  present := Or.inr (Or.inl rfl)
+
+example : CertDer.decodeTbs (CertEnc.encodeTbs exCert) true [9] = some (CertEnc.readBack exCert true [9]) :=
+  tbs_cert_roundtrip exCert exCert_wf true [9]
 
 end Rpki.Props.C05
